@@ -582,15 +582,15 @@ Proof. repeat split; try (vm_compute; reflexivity); vm_compute; discriminate. Qe
 (* 6. the legacy encoding is refuted                                   *)
 (* ------------------------------------------------------------------ *)
 
-Definition legacy : cfg := mkCfg true true true false.
+Definition legacy : cfg := mkCfg true true true false true.
 
 Definition ex_A : frag := mkFrag 1 (s "A") 1 100 1 [].
 Definition ex_B : frag := mkFrag 2 (s "B") 1 200 (-1) [].
 Definition ex_rows2 : list row := [RF ex_A; RF ex_B].
 
 Theorem legacy_junction_refuted : exists rows js jr,
-  Forall pm (frags_of rows) /\ junction_set (mkCfg true true true false) rows = Ok js
-  /\ junction_set (mkCfg true true true false) (rows_reverse rows) = Ok jr
+  Forall pm (frags_of rows) /\ junction_set (mkCfg true true true false true) rows = Ok js
+  /\ junction_set (mkCfg true true true false true) (rows_reverse rows) = Ok jr
   /\ ~ (forall j, In j js <-> In j jr).
 Proof.
   exists ex_rows2, [JSIIS (s "A") 100 200 (s "B")], [JSIIS (s "B") 200 100 (s "A")].
